@@ -742,3 +742,23 @@ def style_parse_vocabulary(ctx):
         if isinstance(d, dict) and "bold" in d:
             return d, v
     return None
+
+
+def table_value(module, name: str):
+    """Python value of a module-level table: a literal, or - when it is assembled by trivially pure code (dict(A), {**A, **B},
+    comprehensions over constant ranges, a parameterless builder function filling a dict in loops) - its constant-folded value
+    (sa.consteval: a closed whitelist of constructs, nothing of the package is executed)."""
+    from ..astutil import literal
+    from ..consteval import NotConstant, fold
+    from ..index import AnalysisError
+    node = module.global_assign(name)
+    try:
+        return literal(node)
+    except AnalysisError:
+        pass
+    try:
+        return fold(module, node)
+    except NotConstant as e:
+        raise AnalysisError(f"{module.short}:{name} is neither a literal nor foldable to a constant ({e})")
+    except Exception as e:  # arithmetic / type errors inside the folded term
+        raise AnalysisError(f"{module.short}:{name} could not be folded: {type(e).__name__}: {e}")
